@@ -19,14 +19,32 @@ def run(tier):
         if r.get("kind") == "hang_suspect":
             suspects.append(r)
 
+    # pinned witnesses of known findings are executed on every run (findings/<name>/<pkg>/)
+    import shutil
+    pinned = []
+    fdir = os.path.join(vlib.VERIF, "findings")
+    if os.path.isdir(fdir):
+        shutil.copytree(fdir, os.path.join(ws, "pinned"))
+        for root, dirs, files in os.walk(os.path.join(ws, "pinned")):
+            if any(f.endswith(".go") for f in files):
+                pinned.append("./" + os.path.relpath(root, ws))
+    if pinned:
+        jobs.append((ws, sorted(pinned), "PIN"))
     scanlib.run_scan(res, vw, jobs, pvs, {"C01"}, on_record=on_rec)
+    jobs = [j for j in jobs if j[2] != "PIN"]
     # the dynamic-rules checker with a real rule set (the repository's rule source as a user rule file)
     import json
     with open(os.path.join(ws, "go.mod"), "a") as f:
         f.write("\nrequire github.com/quasilyte/go-ruleguard/dsl v0.3.22\n")
     pvf = os.path.join(ws, "pv_dyn.json")
-    json.dump({"dyn": {"ruleguard": {"rules": os.path.join(vlib.REPO, "checkers/rules/rules.go")}}}, open(pvf, "w"))
-    scanlib.run_scan(res, vw, [(ws, jobs[-1][1], "G-dyn")], ["dyn"], {"C01"}, extra_args=["-pvfile", pvf, "-only", "ruleguard"], cwd=ws, on_record=on_rec)
+    os.makedirs(os.path.join(ws, "urules"), exist_ok=True)
+    import shutil
+    for nm in ("hostile_rules", "comment_rules"):
+        shutil.copy(os.path.join(vlib.VERIF, "props", nm + ".go.txt"), os.path.join(ws, "urules", nm + ".go"))
+    json.dump({"dyn": {"ruleguard": {"rules": os.path.join(vlib.REPO, "checkers/rules/rules.go")}},
+               "dyn-hostile": {"ruleguard": {"rules": os.path.join(ws, "urules", "hostile_rules.go")}},
+               "dyn-comment": {"ruleguard": {"rules": os.path.join(ws, "urules", "comment_rules.go")}}}, open(pvf, "w"))
+    scanlib.run_scan(res, vw, [(ws, jobs[-1][1], "G-dyn")], ["dyn", "dyn-hostile", "dyn-comment"], {"C01"}, extra_args=["-pvfile", pvf, "-only", "ruleguard"], cwd=ws, on_record=on_rec)
     # bounded progress: a Check that took > 20 s is re-run alone with a 10x budget
     for s in suspects:
         pv, path, checker = s["case"].split(" ", 2)
